@@ -83,7 +83,10 @@ class Respeller:
         if k < .4: return '; ' + text
         if k < .7: return '//' + text
         self.stats['c_comment'] += 1
-        return '/* ' + text.replace('*/', '') + ' */' + self.r.choice(['', ' ', ' \t', '  '])
+        body = text.replace('*/', '')
+        # runs of stars next to the delimiters and inside, a slash after a blank, the empty comment
+        form = self.r.choice(['/* %s */', '/* %s */', '/** %s **/', '/* %s **/', '/*** %s */', '/*%s*/', '/* * / %s ** */', '/***/', '/**/', '/****/'])
+        return (form % body if '%s' in form else form) + self.r.choice(['', ' ', ' \t', '  '])
 
     def operands(self, s, head):
         toks = [(m.lastgroup, m.group()) for m in TOK.finditer(s)]
@@ -153,7 +156,9 @@ class Respeller:
             else:
                 head, ops = hm.group(1), hm.group(2)
                 isdir = head[0] in '.#'
-                lead = self.ws(bool(label)) if (label or code[:1] in ' \t' or self.r.random() < .5) else ''
+                # after a label's colon no blank is needed
+                lead = ('' if label and self.r.random() < .3 else self.ws(bool(label))) if (label or code[:1] in ' \t' or self.r.random() < .5) else ''
+                if label and lead == '': self.stats['label_glued'] += 1
                 if not label and re.match(r'[A-Za-z_]\w*:', lead + head): lead = ' '
                 h = head if isdir else self.case(head)
                 if head.lower() in ('#pragma', '.pragma'):
@@ -176,7 +181,7 @@ class Respeller:
         out = []
         for l in lines:
             if self.r.random() < .12:
-                out.append(self.r.choice(['', ' ', '\t', '; only a comment', '  // only a comment', '/* only a comment */', ' /* c */  ']))
+                out.append(self.r.choice(['', ' ', '\t', '; only a comment', '  // only a comment', '/* only a comment */', ' /* c */  ', '/** doc **/', '/***/']))
                 self.stats['line_inserted'] += 1
             out.append(self.line(l))
         mode = self.r.choice(['lf', 'crlf', 'mixed'])
@@ -196,6 +201,9 @@ CORPUS = [
     ['.macro load', '  ldi @0, @1', '  .if @1 > 5', '  .dw @1 * 2', '  .else', '  .dw 0', '  .endif', '.endm', ' load r16, 7', ' LOAD r17, 2+1', '.ifdef NOPE', ' nop', '.elif 1 == 1', ' ret', '.else', ' sei', '.endif',
      '.define FLAG', '.ifdef FLAG', ' .db 1', '.endif', '.ifndef OTHER', ' .db 2', '.endif', ' .dd 0x12345678, -2', ' .dq 1', ' .db exp2(3), log2(8), abs(-3), lwrd(0x12345), hwrd(0x12345), page(0x12345)'],
 ]
+# labels on the lines that end skipped text and macro definitions
+CORPUS.append(['.if 0', ' ldi r16, 1', 'done: .endif', ' ldi r17, 2', '.if 0', ' nop', 'alt: .else', ' ldi r18, 3', 'fin: .endif', '.ifdef NOPE', ' nop', 'e1: .elif 1', ' ret', 'e2: .endif',
+               '.macro mm', ' inc r0', 'em: .endm', ' mm', '.ifndef NOPE', 'w1: sei', 'w2: .else', ' cli', 'w3: .endif', ' .dw w1'])
 
 def base_programs(rng, n):
     out = []
@@ -228,11 +236,12 @@ def run(tier, seed, model_ok):
     per = 3 if tier == 'quick' else 4
     bases = base_programs(rng, n)
     rs = Respeller(rng)
+    per_of = lambda kind: 4 * per if kind == 'corpus' else per      # the fixed corpus is small and dense: respell it more often
     trip, meta = [], {}
     for i, (kind, lines) in enumerate(bases):
         base = '\n'.join(lines)
         trip.append(('%db' % i, 'B', vlib.hx(base)))
-        for j in range(per):
+        for j in range(per_of(kind)):
             t = rs.program(lines)
             trip.append(('%dr%d' % (i, j), 'B', vlib.hx(t)))
             meta[(i, j)] = t
@@ -248,7 +257,7 @@ def run(tier, seed, model_ok):
     for i, (kind, lines) in enumerate(bases):
         b = images(impl.get('%db' % i, ''))
         if b != 'ERR': okb += 1; kinds[kind] += 1
-        for j in range(per):
+        for j in range(per_of(kind)):
             r = images(impl.get('%dr%d' % (i, j), ''))
             if r != b:
                 # localise: which single line's respelling changes the result
